@@ -106,7 +106,7 @@ def W(pid, toolchain=None):
 
 # ---------------------------------------------------------------------------------------------
 LEAK_ALL = leak("LK", (), 54, all_fns=True)
-LEAK_SCOPED = leak("R3", ("ACQ-SCOPED",), 30)
+LEAK_SCOPED = leak("R3", ("ACQ-SCOPED",), 26)
 
 prop("C01",
      [cg.rule_L1, st.rule_L2, st.rule_L4, st.rule_E1, sig.rule_O1, sig.rule_O3, st.rule_N5, ts.rule_SD, ts2.rule_K1, cg.rule_K2, ts2.rule_R5, ts2.rule_R3key, ts2.rule_R1,
